@@ -143,30 +143,10 @@ func c07PoolReset(c *Ctx) {
 	if nput == 0 {
 		c.R.Fail("unresolved anchor: no sync.Pool.Put in the runtime packages")
 	}
-	// the executor must not retain the pooled *RawParams
+	// the executor must not retain the pooled *RawParams (followed into the module functions it is handed to)
 	if fn := c.fn(pkgExecutor, "*Executor.CreateOperationContext"); fn != nil {
 		params := ssa.Value(fn.Params[len(fn.Params)-1])
-		bad := ""
-		for _, r := range an.Referrers(params) {
-			switch x := r.(type) {
-			case *ssa.Store:
-				if x.Val == params {
-					bad = "the *RawParams parameter is stored at " + c.ipos(x)
-				}
-			case *ssa.MakeClosure:
-				bad = "the *RawParams parameter is captured by a closure at " + c.ipos(x)
-			case *ssa.Send:
-				bad = "the *RawParams parameter is sent on a channel"
-			case *ssa.MakeInterface:
-				bad = "the *RawParams parameter escapes into an interface at " + c.ipos(x)
-			case *ssa.Go:
-				bad = "the *RawParams parameter is passed to a goroutine"
-			case *ssa.Call:
-				if x.Call.StaticCallee() != nil && pipeline.InModule(pipeline.FuncPkgPath(x.Call.StaticCallee())) {
-					bad = "the *RawParams parameter is passed on to " + shortFn(x.Call.StaticCallee()) + " (not analysed for retention)"
-				}
-			}
-		}
+		bad := c.retains(params, 0, map[ssa.Value]bool{})
 		c.R.Check(bad == "", "Executor.CreateOperationContext/does-not-retain-params", c.pos(fn.Pos()), "only field reads, and the documented extension hook, use the pooled pointer", bad)
 	}
 }
@@ -413,4 +393,52 @@ func selectionsStore(c *Ctx, fn *ssa.Function, st *ssa.Store) (bool, string, str
 		}
 	}
 	return true, shortFn(topFn(fn)) + "/store:CollectedField.Selections", bad
+}
+
+
+// retains: how the pointer v (a parameter) may outlive the call — stored, captured, sent, boxed, handed to a goroutine — looking
+// into module functions it is passed to (depth-bounded); "" if it is only read.
+func (c *Ctx) retains(v ssa.Value, depth int, seen map[ssa.Value]bool) string {
+	if seen[v] {
+		return ""
+	}
+	seen[v] = true
+	for _, r := range an.Referrers(v) {
+		switch x := r.(type) {
+		case *ssa.Store:
+			if x.Val == v {
+				return "the *RawParams parameter is stored at " + c.ipos(x)
+			}
+		case *ssa.MakeClosure:
+			return "the *RawParams parameter is captured by a closure at " + c.ipos(x)
+		case *ssa.Send:
+			return "the *RawParams parameter is sent on a channel"
+		case *ssa.MakeInterface:
+			return "the *RawParams parameter escapes into an interface at " + c.ipos(x)
+		case *ssa.Go:
+			return "the *RawParams parameter is passed to a goroutine"
+		case *ssa.Defer:
+			return "the *RawParams parameter is kept by a deferred call at " + c.ipos(x)
+		case *ssa.Phi:
+			if w := c.retains(x, depth, seen); w != "" {
+				return w
+			}
+		case *ssa.Call:
+			callee := x.Call.StaticCallee()
+			if callee == nil || !pipeline.InModule(pipeline.FuncPkgPath(callee)) {
+				continue
+			}
+			if depth >= 3 || len(callee.Blocks) == 0 {
+				return "the *RawParams parameter is passed on to " + shortFn(callee) + " (not analysed for retention)"
+			}
+			for i, a := range x.Call.Args {
+				if a == v && i < len(callee.Params) {
+					if w := c.retains(callee.Params[i], depth+1, seen); w != "" {
+						return w + " (reached through " + shortFn(callee) + ")"
+					}
+				}
+			}
+		}
+	}
+	return ""
 }
